@@ -223,11 +223,60 @@ def r11d(ctx, rep, cr):
     rep.floor('R11d', 'TensorStore methods adding to the filter and writing', n, 2)
 
 
+def r11e(ctx, rep, cr):
+    rep.rule('R11e', 'get-or-create re-checks under its write guard: in EntityIndex::try_get_or_create the push of a new vocabulary entry is '
+                     'reachable from the acquisition of the vocabulary/reverse write guards only through a test whose condition depends both '
+                     'on data read through one of those guards and on the key (the double-check); the lock-free get() before the guards does '
+                     'not count — two threads that both miss it would each allocate an id for one key')
+    f = rep.require_fn('R11e', cr, 'tensor_store::entity_index::EntityIndex::try_get_or_create')
+    if f is None:
+        return
+    defs = A.Defs(f)
+    gs = [g for g in A.guards(f, defs) if 'Write' in (A.guard_kind(g.ty) or '') and
+          any(x.endswith('EntityIndex.vocabulary') or x.endswith('EntityIndex.reverse') for x in g.lock_fields)]
+    pushes = []
+    for c in A.calls(f):
+        if re.search(r'Vec::<T, A>::(push|insert)$', c.generic) and c.args and c.args[0][0] != 'k':
+            sl = A.backward_slice(f, [c.args[0]], defs)
+            if any(g.local in sl.locals for g in gs if any(x.endswith('EntityIndex.vocabulary') for x in g.lock_fields)):
+                pushes.append(c)
+    if not gs or not pushes:
+        rep.violation('R11e', f, 'shape', f.loc(), 'anchor-missing: write guards on vocabulary/reverse (%d) or the vocabulary push (%d) not found' % (len(gs), len(pushes)))
+        return
+    glocals = {g.local for g in gs}
+    tests = set()
+    for i, b in enumerate(f.bbs):
+        if b['cleanup'] or b['t'][0] != 'sw':
+            continue
+        l = lib.switch_local(f, i)
+        if l is None:
+            continue
+        sl = A.backward_slice(f, [l], defs)
+        if (sl.locals & glocals) and (2 in sl.params):
+            tests.add(i)
+    starts = []
+    for g in gs:
+        for (bb, idx) in g.acq_calls:
+            t = f.bbs[bb]['t']
+            if t[0] == 'call' and t[5] is not None and t[5] >= 0:
+                starts.append(t[5])
+    R = A.reachable(f, starts, cut_blocks=tests)
+    for k, c in enumerate(pushes):
+        if c.bb in R:
+            rep.violation('R11e', f, 'no-recheck', f.loc(c.line),
+                          'a new vocabulary entry is appended after taking the write guards without re-checking, under those guards, whether '
+                          'the key was inserted meanwhile: two concurrent puts of one new key each allocate an entity id; delete tombstones '
+                          'one of them and the key is still readable afterwards with the other writer\'s value')
+        else:
+            rep.holds('R11e', f, 'push#%d after re-check' % k, '%d test(s) on guard data and key' % len(tests))
+
+
 def run(ctx, rep):
     cr = ctx.crate('tensor_store')
     r11a(ctx, rep, cr)
     r11b(ctx, rep, cr)
     r11c(ctx, rep, cr)
     r11d(ctx, rep, cr)
+    r11e(ctx, rep, cr)
     if ctx.tier == 'thorough':
         witness.run(rep, 'R11a', ['MetadataShardsArePrivate'])
